@@ -190,7 +190,7 @@ func (c *FnVC) applyContract(x *ssa.Call, ct *Contract, f *ssa.Function, sig *ty
 			simple := len(ms.ranges) == 0 && len(ms.unders) == 0
 			if simple {
 				for _, e := range ms.exact {
-					fv := c.freshConst("mod_"+e.kind, kindSortOrComp(c, e.kind))
+					fv := c.freshConst("mod_"+sanitize(e.kind), kindSortOrComp(c, e.kind))
 					c.setH(e.kind, fmt.Sprintf("(store %s %s %s)", c.H(e.kind), e.loc, fv))
 				}
 			} else {
@@ -252,6 +252,18 @@ func (c *FnVC) applyContract(x *ssa.Call, ct *Contract, f *ssa.Function, sig *ty
 func kindSortOrComp(c *FnVC, k string) string {
 	if s, ok := kindSort[k]; ok {
 		return s
+	}
+	switch {
+	case k == "ghost:llen" || strings.HasPrefix(k, "maplen:"):
+		return "(_ BitVec 64)"
+	case k == "ghost:lseq":
+		return "(Array (_ BitVec 64) Loc)"
+	case k == "ghost:lpos":
+		return "(Array Loc (_ BitVec 64))"
+	}
+	// element sort of a map component: strip the outer (Array Loc ...)
+	if cs := c.te.mapComp(k); strings.HasPrefix(cs, "(Array Loc ") {
+		return strings.TrimSuffix(strings.TrimPrefix(cs, "(Array Loc "), ")")
 	}
 	return "Opaque"
 }
